@@ -1539,6 +1539,17 @@ def emit_ann_assign(node):""")]),
         f.write(src)""", """    makedirs(path.dirname(path.abspath(filename)), exist_ok=True)
     with open(filename, mode) as f:
         f.write(src)""")]),
+    # ---- ARGS-ORDER (C09)
+    dict(id="argsorder-files-sorted", kind=B, props=["C09"], expect="ARGS-ORDER", edits=[("__main__.py",
+         """        truth_file = getattr(args, pluralise(args.truth))
+        if truth_file is None:""", """        args.functions = sorted(set(args.functions)) if args.functions else args.functions
+        truth_file = getattr(args, pluralise(args.truth))
+        if truth_file is None:""")]),
+    dict(id="argsorder-neutral-files-copied", kind=N, props=["C09"], expect="silent", edits=[("__main__.py",
+         """        truth_file = getattr(args, pluralise(args.truth))
+        if truth_file is None:""", """        args.functions = list(args.functions) if args.functions else args.functions
+        truth_file = getattr(args, pluralise(args.truth))
+        if truth_file is None:""")]),
     # ---- PARAM-KEPT (C07, C03)
     dict(id="paramkept-return-type-popped-in-merge", kind=B, props=["C07", "C03"], expect="PARAM-KEPT", edits=[("parser_utils.py",
          """    if "return_type" not in (target.get("returns") or iter(())):""",
